@@ -111,6 +111,7 @@ func (s C15) Events(env world.Env, m mc.Model) []string {
 	evs = append(evs, "InitUpper:B", "ShutdownUpper:B")
 	evs = append(evs, "InitLong:A", "ShutdownLong:A") // the 32-byte account whose address string extends A's
 	evs = append(evs, "InitZero:A", "InitZero:B")     // a registration that offers no space at all
+	evs = append(evs, "InitMoved:A")                  // the same account announces itself again from another host
 	evs = append(evs, "Price:1", "Price:2", "Price:half")
 	if m.(c15Model).Blocks < 1 {
 		evs = append(evs, "NextBlock")
@@ -181,7 +182,7 @@ func (C15) Apply(env world.Env, mm mc.Model, ev string) mc.Step {
 		if env.Deliver(msg).OK() {
 			st.Outcome = "ok"
 		}
-	case "Init", "InitUpper", "InitLong", "InitZero":
+	case "Init", "InitUpper", "InitLong", "InitZero", "InitMoved":
 		who := w.A(p[1])
 		creator := who.Bech
 		payer := who.Bech
@@ -195,6 +196,9 @@ func (C15) Apply(env world.Env, mm mc.Model, ev string) mc.Step {
 		msg := storagetypes.NewMsgInitProvider(creator, "https://"+p[1]+".example.com", 1_000_000, "kb")
 		if p[0] == "InitZero" {
 			msg.TotalSpace = 0
+		}
+		if p[0] == "InitMoved" {
+			msg.Ip = "https://moved." + p[1] + ".example.org"
 		}
 		var res world.TxResult
 		if p[0] == "InitLong" {
